@@ -187,6 +187,8 @@ func runC10(c *Ctx, r *Report) {
 	r.Doc("R-C10.6", "the fetch admission state (clock window, task cache) is only touched under the process mutex — the kept set does not depend on worker interleaving through torn updates")
 	r.Doc("R-C10.7", "the caller's length limit and exclusions reach the fetcher through every loader and constructor")
 	optionForwarding(c, r, "R-C10.7", append(loaderFetchSpecs(), constructorLoaderSpecs()...), "Length", "Exclude", "ShouldExclude")
+	r.Doc("R-C10.8", "the outcome does not depend on the fetch concurrency: no configuration of slots and queued hashes stalls the dispatcher (slot release before the mutex, worker accounting on every path)")
+	importRules(c, r, "C11", []string{"R-C11.1", "R-C11.6"}, "R-C10.8")
 	fetch := p.FuncI("entry", "Fetcher", "Fetch")
 	ff := &Flow{P: p, Fn: fetch, Entry: Facts{}}
 	ff.Node = func(n ast.Node, f Facts) {
